@@ -18,6 +18,7 @@ RULE = (
     "chunk iterable x storage mode x value columns. Oracle: the per-cell model tables; the independent schema "
     "validator per cell; HDF5 object addresses for the shared bin columns. Non-trivial = >=2 cells with different "
     "non-empty content. Distinct by sha1 of the canonical case."
+    " Also: a bin column stored in ONE cell after creation must not appear in other cells or at file level; cell keys spelled '/cells/<name>' (names starting with letters of 'cells/'); arguments equal to defaults left out."
 )
 ASSUMPTIONS = ["per-cell pixel tables are sorted by (bin1_id, bin2_id) as create_scool documents"]
 
